@@ -655,12 +655,45 @@ pub fn wide_interest(w: u32) -> Vec<i128> {
     vec![smin(w) as i128, -half, -129, -128, -1, 0, 127, 128, 255, 256, half - 1, half, smax(w) as i128]
 }
 
-/// Report a violation; when a single case is replayed also print what was observed.
-pub fn viol(ctx: &Ctx, key: String, case: serde_json::Value, detail: serde_json::Value) {
+/// Position of a case in the enumeration: (part, index inside the part, running number inside the index).
+pub type Ordinal = (u32, u64, u32);
+const KEPT_PER_KEY: usize = 25;
+type Kept = BTreeMap<String, (u64, BTreeMap<Ordinal, (serde_json::Value, serde_json::Value)>)>;
+static COLLECTED: std::sync::Mutex<Kept> = std::sync::Mutex::new(BTreeMap::new());
+
+fn keep(into: &mut Kept, key: String, n: u64, ord: Ordinal, case: serde_json::Value, detail: serde_json::Value) {
+    let e = into.entry(key).or_insert_with(|| (0, BTreeMap::new()));
+    e.0 += n;
+    e.1.insert(ord, (case, detail));
+    while e.1.len() > KEPT_PER_KEY {
+        e.1.pop_last();
+    }
+}
+
+/// Report a violation. During a sweep the violations are collected per worker and handed to
+/// `Ctx` in enumeration order by `emit_violations` (so the recorded examples do not depend on
+/// thread scheduling: per class the first 25 in enumeration order, plus the total count);
+/// when a single case is replayed the violation is reported at once and what was observed is printed.
+pub fn viol(ctx: &Ctx, acc: &mut Acc, key: String, case: serde_json::Value, detail: serde_json::Value) {
     if ctx.replay_case().is_some() {
         eprintln!("violation [{key}]\n  case:   {case}\n  detail: {detail}");
+        ctx.violation(key, case, detail);
+        return;
     }
-    ctx.violation(key, case, detail);
+    let ord = acc.ord;
+    acc.ord.2 += 1;
+    keep(&mut acc.viols, key, 1, ord, case, detail);
+}
+
+/// Hand the collected violations to `Ctx` (call once, before `Ctx::finish`).
+pub fn emit_violations(ctx: &Ctx) {
+    let all = std::mem::take(&mut *COLLECTED.lock().unwrap());
+    for (key, (count, kept)) in all {
+        ctx.stat(&format!("violating cases [{key}]"), count);
+        for (_, (case, detail)) in kept {
+            ctx.violation(key.clone(), case, detail);
+        }
+    }
 }
 
 // ---------------------------------------------------------------- per-worker counters
@@ -673,8 +706,16 @@ pub struct Acc {
     pub nontrivial: u64,
     pub outcomes: BTreeSet<u64>,
     pub stats: BTreeMap<&'static str, u64>,
+    /// violations found by this worker: per class the count and the first few in enumeration order
+    pub viols: Kept,
+    /// where in the enumeration the worker is
+    pub ord: Ordinal,
 }
 impl Acc {
+    /// Tell the accumulator which element of the enumeration is processed next.
+    pub fn at(&mut self, part: u32, idx: u64) {
+        self.ord = (part, idx, 0);
+    }
     pub fn stat(&mut self, k: &'static str, n: u64) {
         *self.stats.entry(k).or_insert(0) += n;
     }
@@ -693,6 +734,14 @@ impl Acc {
         }
         for (k, n) in self.stats {
             ctx.stat(k, n);
+        }
+        let mut all = COLLECTED.lock().unwrap();
+        for (key, (count, kept)) in self.viols {
+            let mut first = true;
+            for (ord, (case, detail)) in kept {
+                keep(&mut all, key.clone(), if first { count } else { 0 }, ord, case, detail);
+                first = false;
+            }
         }
     }
 }
